@@ -55,6 +55,18 @@ T("C05", "twin-verifier-flag-temp", "c2.py", _RFS,
 T("C05", "twin-verifier-oneshot", "c2.py", _RFS,
   "        signature = hmac.digest(hmac_key, self.ciphertext, \"sha256\")[:16]\n        if self.signature == signature:\n            return None\n"
   "        else:\n            raise ValueError(f\"Invalid HMAC signature, expected {signature.hex()} got {self.signature.hex()}\")\n")
+T("C05", "twin-verifier-length-precheck", "c2.py", _RFS,
+  "        signature = hmac.new(hmac_key, self.ciphertext, \"sha256\").digest()[:16]\n"
+  "        if len(self.signature) != len(signature) or signature != self.signature:\n"
+  "            raise ValueError(f\"Invalid HMAC signature, expected {signature.hex()} got {self.signature.hex()}\")\n")
+T("C05", "twin-verifier-update", "c2.py", _RFS,
+  "        mac = hmac.new(hmac_key, digestmod=\"sha256\")\n        mac.update(self.ciphertext)\n        signature = mac.digest()[:16]\n"
+  "        if signature != self.signature:\n"
+  "            raise ValueError(f\"Invalid HMAC signature, expected {signature.hex()} got {self.signature.hex()}\")\n")
+M("C05", "verifier-update-wrong-message", "c2.py", _RFS,
+  "        mac = hmac.new(hmac_key, digestmod=\"sha256\")\n        mac.update(self.signature)\n        signature = mac.digest()[:16]\n"
+  "        if signature != self.signature:\n"
+  "            raise ValueError(f\"Invalid HMAC signature, expected {signature.hex()} got {self.signature.hex()}\")\n", "C05.R3")
 M("C05", "early-return-prefix-compare", "c2.py", _RFS, _RFS_EARLY.format(n=16, test="expected[:4] == self.signature[:4]"), "C05.R2")
 M("C05", "early-return-inverted", "c2.py", _RFS, _RFS_EARLY.format(n=16, test="expected != self.signature"), "C05.R2")
 M("C05", "early-return-digest-8", "c2.py", _RFS, _RFS_EARLY.format(n=8, test="expected == self.signature"), "C05.R4")
@@ -144,6 +156,8 @@ M("C05", "server-keyword-ctor-signature-first", "c2.py", _SERVER,
 M("C05", "server-body-size-off", "c2.py", _SERVER,
   "        data = self.output\n        if data:\n            stream = io.BytesIO(data)\n            body_size = len(data) - 20\n"
   "            yield EncryptedPacket(ciphertext=stream.read(body_size), signature=stream.read(16))\n", "C05.R4")
+# the two slicing twins agree with the stream-reading code on every well-formed stream (frames of at least 16 bytes), which is
+# what the property quantifies over; they are the correct counterparts of the seeded stale-length change
 T("C05", "twin-server-slices", "c2.py", _SERVER,
   "        data = self.output\n        if not data:\n            return\n        yield EncryptedPacket(data[:-16], data[-16:])\n")
 M("C05", "server-slices-short-signature", "c2.py", _SERVER,
